@@ -319,7 +319,10 @@ def run_check(prop, tier, seed, replay=None):
     # ---- 1. translator
     gen_changed = []
     try:
-        for rel, text in prop.translate().items():
+        gen_files = dict(prop.translate())
+        import translate_classes                     # class structure (overrides, attribute hooks): shared by all checks
+        gen_files.update(translate_classes.gen())
+        for rel, text in gen_files.items():
             if build.write_if_changed(os.path.join(build.COQ, "gen", rel), text):
                 gen_changed.append(rel)
     except TranslateError as e:
